@@ -4,6 +4,7 @@ import (
 	"fmt"
 	"go/token"
 	"go/types"
+	"sort"
 	"strings"
 
 	"golang.org/x/tools/go/ssa"
@@ -23,7 +24,7 @@ func init() {
 
 func runC01(p *core.Prog, r *core.Report) {
 	c01R1(p, r)
-	c01R2(p, r)
+	c01R8(p, r, c01R2(p, r))
 	c01R3(p, r)
 	c01R4(p, r)
 	c01R5(p, r)
@@ -92,8 +93,11 @@ func c01R1(p *core.Prog, r *core.Report) {
 }
 
 // readCtx holds the Read method and helpers to recognise its comparisons.
-func c01R2(p *core.Prog, r *core.Report) {
+// c01R2 returns the helpers of Read that carry the complete EOF verification (every way through them
+// evaluates the size test and the digest test).
+func c01R2(p *core.Prog, r *core.Report) (verifiers map[*ssa.Function]bool) {
 	const rule = "C01.R2"
+	verifiers = map[*ssa.Function]bool{}
 	r.Rule(rule, "no clean EOF without the comparisons: on every path from the EOF edge of BReader.Read to the return the size test and the digest test are evaluated, and a path that takes a mismatch edge returns a fresh error", 3)
 	fn := p.Method("types/blob", "BReader", "Read")
 	if fn == nil {
@@ -101,22 +105,41 @@ func c01R2(p *core.Prog, r *core.Report) {
 		return
 	}
 	fname := p.FuncName(fn)
-	// the EOF test: err == io.EOF
-	var eofBlock, eofSucc *ssa.BasicBlock
-	for _, b := range fn.Blocks {
-		ifi, ok := core.LastInstr(b).(*ssa.If)
-		if !ok {
-			continue
+	// the EOF test: err == io.EOF, in Read or in the helper Read hands the error to
+	findEOF := func(f *ssa.Function) (eofBlock, eofSucc *ssa.BasicBlock) {
+		for _, b := range f.Blocks {
+			ifi, ok := core.LastInstr(b).(*ssa.If)
+			if !ok {
+				continue
+			}
+			cnd, pol := core.StripNot(ifi.Cond, true)
+			bo, ok := cnd.(*ssa.BinOp)
+			if ok && (bo.Op == token.EQL || bo.Op == token.NEQ) && (globalNamed(bo.Y, "EOF") || globalNamed(bo.X, "EOF")) {
+				eofBlock = b
+				// the successor taken when the error is io.EOF
+				if (bo.Op == token.EQL) == pol {
+					eofSucc = b.Succs[0]
+				} else {
+					eofSucc = b.Succs[1]
+				}
+			}
 		}
-		cnd, pol := core.StripNot(ifi.Cond, true)
-		bo, ok := cnd.(*ssa.BinOp)
-		if ok && (bo.Op == token.EQL || bo.Op == token.NEQ) && (globalNamed(bo.Y, "EOF") || globalNamed(bo.X, "EOF")) {
-			eofBlock = b
-			// the successor taken when the error is io.EOF
-			if (bo.Op == token.EQL) == pol {
-				eofSucc = b.Succs[0]
-			} else {
-				eofSucc = b.Succs[1]
+		return
+	}
+	root := fn
+	eofBlock, eofSucc := findEOF(fn)
+	if eofBlock == nil {
+		var hs []*ssa.Function
+		for g := range core.Helpers(fn, 2) {
+			if g != fn && len(g.Blocks) > 0 {
+				hs = append(hs, g)
+			}
+		}
+		sort.Slice(hs, func(i, j int) bool { return hs[i].String() < hs[j].String() })
+		for _, g := range hs {
+			if b, sc := findEOF(g); b != nil {
+				root, eofBlock, eofSucc = g, b, sc
+				break
 			}
 		}
 	}
@@ -124,10 +147,35 @@ func c01R2(p *core.Prog, r *core.Report) {
 		r.Undecided(rule, fname, "EOF test", p.Pos(fn.Pos()), "no comparison of the read error with io.EOF found")
 		return
 	}
-	paths, ok := core.EnumPaths(eofBlock, eofSucc, 256)
-	if !ok {
-		r.Undecided(rule, fname, "EOF paths", p.Pos(fn.Pos()), "the EOF handling contains a loop or too many paths")
-		return
+	if root != fn {
+		// Read must hand back what the helper returns
+		dropped := 0
+		core.Calls(fn, func(ci ssa.CallInstruction) {
+			c, ok := ci.(*ssa.Call)
+			if !ok || core.CalleeFn(c) != root {
+				return
+			}
+			var paths []core.BlockPath
+			if _, isRet := core.LastInstr(c.Block()).(*ssa.Return); isRet {
+				paths = []core.BlockPath{{c.Block()}}
+			}
+			for _, sc := range c.Block().Succs {
+				ps, _ := core.EnumPaths(c.Block(), sc, 256)
+				paths = append(paths, ps...)
+			}
+			for _, path := range paths {
+				ret := core.LastInstr(path[len(path)-1]).(*ssa.Return)
+				v := core.PhiOnPath(core.ReturnOperand(ret, len(ret.Results)-1), path)
+				if ex, ok := v.(*ssa.Extract); ok {
+					v = ex.Tuple
+				}
+				if v != ssa.Value(c) {
+					dropped++
+				}
+			}
+		})
+		r.Check(dropped == 0, rule, fname, "result of the EOF handling returned", p.Pos(fn.Pos()),
+			fmt.Sprintf("the EOF handling lives in %s; %d paths of Read return something else than its result", p.FuncName(root), dropped))
 	}
 	isField := func(v ssa.Value, name string) bool {
 		u, ok := v.(*ssa.UnOp)
@@ -157,78 +205,214 @@ func c01R2(p *core.Prog, r *core.Report) {
 	}
 	isCounter := func(v ssa.Value) bool { return isField(v, "readBytes") }
 	isSize := func(v ssa.Value) bool { return isField(v, "Size") }
-	badNoSize, badNoDigest, badClean := 0, 0, 0
-	sample := ""
-	for _, path := range paths {
-		sizeSeen, digSeen, mismatch := false, false, false
-		for _, b := range path {
-			bo, truth, ok := cond(b, path)
+	// One way through the EOF handling: what was compared, whether a mismatch edge was taken, and what
+	// the returned error is (fresh, or the value of parameter pass of the function the path is in).
+	type way struct {
+		size, dig, mismatch, fresh bool
+		pass                       int
+		sample                     string
+	}
+	isErr := func(t types.Type) bool { return types.Identical(t, types.Universe.Lookup("error").Type()) }
+	helpers := core.Helpers(fn, 3)
+	// a helper of Read that hands back an error: its ways are part of the ways of its caller
+	errHelper := func(c *ssa.Call) *ssa.Function {
+		g := core.CalleeFn(c)
+		if g == nil || g == fn || !helpers[g] || len(g.Blocks) == 0 {
+			return nil
+		}
+		res := g.Signature.Results()
+		if res.Len() == 0 || !isErr(res.At(res.Len()-1).Type()) {
+			return nil
+		}
+		return g
+	}
+	tooMany := false
+	var waysOf func(f *ssa.Function, paths []core.BlockPath, depth int) []way
+	summary := map[*ssa.Function][]way{}
+	var summarise func(g *ssa.Function, depth int) []way
+	summarise = func(g *ssa.Function, depth int) []way {
+		if w, ok := summary[g]; ok {
+			return w
+		}
+		summary[g] = nil
+		entry := g.Blocks[0]
+		var paths []core.BlockPath
+		if _, isRet := core.LastInstr(entry).(*ssa.Return); isRet {
+			paths = []core.BlockPath{{entry}}
+		}
+		for _, s := range entry.Succs {
+			ps, ok := core.EnumPaths(entry, s, 256)
 			if !ok {
-				continue
+				tooMany = true
 			}
-			switch {
-			case (bo.Op == token.EQL || bo.Op == token.NEQ) && isSize(bo.X):
-				if k, isK := core.ConstInt(bo.Y); isK && k == 0 {
-					if (bo.Op == token.EQL) == truth {
-						sizeSeen = true // size unknown: learned from the stream
+			paths = append(paths, ps...)
+		}
+		summary[g] = waysOf(g, paths, depth)
+		return summary[g]
+	}
+	waysOf = func(f *ssa.Function, paths []core.BlockPath, depth int) []way {
+		var out []way
+		for _, path := range paths {
+			base := way{pass: -1}
+			var calls []*ssa.Call
+			for _, b := range path {
+				for _, in := range b.Instrs {
+					if c, ok := in.(*ssa.Call); ok && depth < 3 && errHelper(c) != nil {
+						calls = append(calls, c)
 					}
 				}
-			case (isCounter(bo.X) && isSize(bo.Y)) || (isCounter(bo.Y) && isSize(bo.X)):
-				sizeSeen = true
-				// does this edge establish counter != size?
-				switch bo.Op {
-				case token.LSS, token.GTR, token.NEQ:
-					if truth {
-						mismatch = true
-					}
-				case token.LEQ, token.GEQ, token.EQL:
-					if !truth {
-						mismatch = true
-					}
+				bo, truth, ok := cond(b, path)
+				if !ok {
+					continue
 				}
-			case (bo.Op == token.NEQ || bo.Op == token.EQL) && isDigestType(bo.X.Type()):
-				digSeen = true
-				if (bo.Op == token.NEQ) == truth {
-					mismatch = true
-				}
-			default:
-				if x, neq, isNil := errCmpNil(bo); isNil {
-					for _, oc := range originCalls(x) {
-						if cal := core.Callee(oc); cal != nil && cal.Name() == "Validate" {
-							// Validate() failed: trust on first use, the digest is learned from the stream
-							if neq == truth {
-								digSeen = true
+				switch {
+				case (bo.Op == token.EQL || bo.Op == token.NEQ) && isSize(bo.X):
+					if k, isK := core.ConstInt(bo.Y); isK && k == 0 {
+						if (bo.Op == token.EQL) == truth {
+							base.size = true // size unknown: learned from the stream
+						}
+					}
+				case (isCounter(bo.X) && isSize(bo.Y)) || (isCounter(bo.Y) && isSize(bo.X)):
+					base.size = true
+					// does this edge establish counter != size?
+					switch bo.Op {
+					case token.LSS, token.GTR, token.NEQ:
+						if truth {
+							base.mismatch = true
+						}
+					case token.LEQ, token.GEQ, token.EQL:
+						if !truth {
+							base.mismatch = true
+						}
+					}
+				case (bo.Op == token.NEQ || bo.Op == token.EQL) && isDigestType(bo.X.Type()):
+					base.dig = true
+					if (bo.Op == token.NEQ) == truth {
+						base.mismatch = true
+					}
+				default:
+					if x, neq, isNil := errCmpNil(bo); isNil {
+						for _, oc := range originCalls(x) {
+							if cal := core.Callee(oc); cal != nil && cal.Name() == "Validate" {
+								// Validate() failed: trust on first use, the digest is learned from the stream
+								if neq == truth {
+									base.dig = true
+								}
 							}
 						}
 					}
 				}
 			}
-		}
-		ret := core.LastInstr(path[len(path)-1]).(*ssa.Return)
-		errV := core.PhiOnPath(core.ReturnOperand(ret, len(ret.Results)-1), path)
-		fresh := false
-		if c, ok := errV.(*ssa.Call); ok {
-			if cal := core.Callee(c); cal != nil && (core.IsFunc(cal, "fmt", "Errorf") || core.IsFunc(cal, "errors", "New") || core.IsFunc(cal, "errors", "Join")) {
-				fresh = true
+			ret := core.LastInstr(path[len(path)-1]).(*ssa.Return)
+			// every combination of ways through the helpers called on the path
+			combos := []map[*ssa.Call]way{{}}
+			for _, c := range calls {
+				hw := summarise(errHelper(c), depth+1)
+				var next []map[*ssa.Call]way
+				for _, m := range combos {
+					for _, w := range hw {
+						n := map[*ssa.Call]way{c: w}
+						for k, v := range m {
+							n[k] = v
+						}
+						next = append(next, n)
+					}
+				}
+				combos = next
+				if len(combos) > 4096 {
+					tooMany = true
+					return out
+				}
+			}
+			for _, m := range combos {
+				w := base
+				for _, hw := range m {
+					w.size, w.dig, w.mismatch = w.size || hw.size, w.dig || hw.dig, w.mismatch || hw.mismatch
+				}
+				// the returned error on this way
+				v := core.PhiOnPath(core.ReturnOperand(ret, len(ret.Results)-1), path)
+				for i := 0; i < 8 && v != nil; i++ {
+					if ex, ok := v.(*ssa.Extract); ok {
+						v = ex.Tuple
+					}
+					c, ok := v.(*ssa.Call)
+					if !ok {
+						break
+					}
+					if cal := core.Callee(c); cal != nil && (core.IsFunc(cal, "fmt", "Errorf") || core.IsFunc(cal, "errors", "New") || core.IsFunc(cal, "errors", "Join")) {
+						w.fresh = true
+						break
+					}
+					hw, ok := m[c]
+					if !ok {
+						break
+					}
+					if hw.fresh {
+						w.fresh = true
+						break
+					}
+					if hw.pass < 0 || hw.pass >= len(c.Call.Args) {
+						break
+					}
+					v = core.PhiOnPath(c.Call.Args[hw.pass], path)
+				}
+				if !w.fresh {
+					if pv, ok := v.(*ssa.Parameter); ok {
+						for i, q := range f.Params {
+							if q == pv {
+								w.pass = i
+							}
+						}
+					}
+					if v != nil {
+						w.sample = v.String()
+					}
+				}
+				out = append(out, w)
 			}
 		}
-		if !sizeSeen {
+		return out
+	}
+	paths, ok := core.EnumPaths(eofBlock, eofSucc, 256)
+	if !ok {
+		r.Undecided(rule, fname, "EOF paths", p.Pos(fn.Pos()), "the EOF handling contains a loop or too many paths")
+		return
+	}
+	ways := waysOf(root, paths, 0)
+	if tooMany {
+		r.Undecided(rule, fname, "EOF paths", p.Pos(fn.Pos()), "a helper of the EOF handling contains a loop or too many paths")
+		return
+	}
+	badNoSize, badNoDigest, badClean := 0, 0, 0
+	sample := ""
+	for g, ws := range summary {
+		all := len(ws) > 0
+		for _, w := range ws {
+			all = all && w.size && w.dig
+		}
+		if all {
+			verifiers[g] = true
+		}
+	}
+	for _, w := range ways {
+		if !w.size {
 			badNoSize++
 		}
-		if !digSeen {
+		if !w.dig {
 			badNoDigest++
 		}
-		if mismatch && !fresh {
+		if w.mismatch && !w.fresh {
 			badClean++
-			sample = errV.String()
+			sample = w.sample
 		}
 	}
 	r.Check(badNoSize == 0, rule, fname, "size test on every EOF path", p.Pos(eofBlock.Instrs[len(eofBlock.Instrs)-1].Pos()),
-		fmt.Sprintf("%d of %d EOF paths reach the return without comparing the number of bytes read with the descriptor size (truncated or over-long content would read cleanly, e.g. after a rewind)", badNoSize, len(paths)))
+		fmt.Sprintf("%d of %d EOF paths (through helpers) reach the return without comparing the number of bytes read with the descriptor size (truncated or over-long content would read cleanly, e.g. after a rewind)", badNoSize, len(ways)))
 	r.Check(badNoDigest == 0, rule, fname, "digest test on every EOF path", p.Pos(eofBlock.Instrs[len(eofBlock.Instrs)-1].Pos()),
-		fmt.Sprintf("%d of %d EOF paths reach the return without comparing (or learning) the digest", badNoDigest, len(paths)))
+		fmt.Sprintf("%d of %d EOF paths (through helpers) reach the return without comparing (or learning) the digest", badNoDigest, len(ways)))
 	r.Check(badClean == 0, rule, fname, "mismatch returns a fresh error", p.Pos(eofBlock.Instrs[len(eofBlock.Instrs)-1].Pos()),
-		fmt.Sprintf("%d of %d EOF paths take a mismatch edge but return %s instead of a newly built error", badClean, len(paths), sample))
+		fmt.Sprintf("%d of %d EOF paths (through helpers) take a mismatch edge but return %s instead of a newly built error", badClean, len(ways), sample))
+	return verifiers
 }
 
 func c01R3(p *core.Prog, r *core.Report) {
@@ -629,4 +813,172 @@ func c01R7(p *core.Prog, r *core.Report) {
 		}
 	})
 	r.Check(ok, rule, p.FuncName(tt), "tar reader keeps the descriptor", p.Pos(tt.Pos()), "the tar reader built from a blob reader is given the blob's descriptor to verify against")
+}
+
+// c01R8: the verifying chain of a BReader is drained by Read. Another function of the package that
+// reads the chain itself bypasses the comparisons Read makes at EOF unless it makes them too (through
+// the helper Read uses) and hands their result back.
+func c01R8(p *core.Prog, r *core.Report, verifiers map[*ssa.Function]bool) {
+	const rule = "C01.R8"
+	r.Rule(rule, "the verifying chain of a BReader (field reader) is consumed only by BReader.Read; any other function of the package that reads it runs the EOF comparisons afterwards on every path that does not fail, and returns their result unless that result is identical to io.EOF or nil", 1)
+	read := p.Method("types/blob", "BReader", "Read")
+	if read == nil {
+		r.MissingAnchor(rule, "types/blob.(*BReader).Read")
+		return
+	}
+	inRead := core.Helpers(read, 3)
+	isChain := func(v ssa.Value) bool {
+		for i := 0; i < 4; i++ {
+			switch x := v.(type) {
+			case *ssa.MakeInterface:
+				v = x.X
+				continue
+			case *ssa.ChangeInterface:
+				v = x.X
+				continue
+			case *ssa.UnOp:
+				if x.Op == token.MUL {
+					if fa, ok := x.X.(*ssa.FieldAddr); ok && core.FieldName(fa.X.Type(), fa.Field) == "reader" && core.IsModNamed(fa.X.Type(), "types/blob", "BReader") {
+						return true
+					}
+				}
+			}
+			return false
+		}
+		return false
+	}
+	for _, f := range p.ModFuncs {
+		if inRead[f] || len(f.Blocks) == 0 {
+			continue
+		}
+		fname := p.FuncName(f)
+		for _, b := range f.Blocks {
+			for _, in := range b.Instrs {
+				c, ok := in.(*ssa.Call)
+				if !ok {
+					continue
+				}
+				uses := c.Call.IsInvoke() && isChain(c.Call.Value)
+				for _, a := range c.Call.Args {
+					uses = uses || isChain(a)
+				}
+				if !uses {
+					continue
+				}
+				label := "chain consumed"
+				if cal := core.Callee(c); cal != nil {
+					label = "chain consumed by " + cal.Name()
+				}
+				if res := c.Call.Signature().Results(); res.Len() == 1 {
+					if _, isFn := res.At(0).Type().Underlying().(*types.Signature); isFn {
+						r.Held(rule, fname, label, p.Pos(c.Pos()), "handed on as a constructor option before anything was read (the receiving reader wraps it in its own verifying chain)")
+						continue
+					}
+				}
+				// the error of the consuming call
+				var drainErr ssa.Value
+				res := c.Call.Signature().Results()
+				if res.Len() == 1 {
+					drainErr = c
+				} else {
+					for _, ref := range *c.Referrers() {
+						if ex, ok := ref.(*ssa.Extract); ok && ex.Index == res.Len()-1 {
+							drainErr = ex
+						}
+					}
+				}
+				var paths []core.BlockPath
+				okAll := true
+				if _, isRet := core.LastInstr(b).(*ssa.Return); isRet {
+					paths = []core.BlockPath{{b}}
+				}
+				for _, sc := range b.Succs {
+					ps, ok := core.EnumPaths(b, sc, 512)
+					okAll = okAll && ok
+					paths = append(paths, ps...)
+				}
+				if !okAll {
+					r.Undecided(rule, fname, label, p.Pos(c.Pos()), "the verifying chain is read in a loop outside BReader.Read: the paths to the return cannot be enumerated")
+					continue
+				}
+				bare, replaced := 0, 0
+				sample := ""
+				for _, path := range paths {
+					var ver *ssa.Call
+					failed := false
+					var eqNilOrEOF []ssa.Value
+					for k, pb := range path {
+						for _, pin := range pb.Instrs {
+							if k == 0 && pin.Pos() != token.NoPos && pin.Pos() < c.Pos() && pin.Block() == b {
+								continue
+							}
+							if vc, ok := pin.(*ssa.Call); ok && verifiers[core.CalleeFn(vc)] {
+								ver = vc
+							}
+						}
+						ifi, ok := core.LastInstr(pb).(*ssa.If)
+						if !ok {
+							continue
+						}
+						taken := core.EdgeTaken(path, pb)
+						if taken < 0 {
+							continue
+						}
+						cnd, pol := core.StripNot(ifi.Cond, true)
+						bo, ok := cnd.(*ssa.BinOp)
+						if !ok || (bo.Op != token.EQL && bo.Op != token.NEQ) {
+							continue
+						}
+						truth := (taken == 0) == pol
+						eq := (bo.Op == token.EQL) == truth
+						for _, pair := range [][2]ssa.Value{{bo.X, bo.Y}, {bo.Y, bo.X}} {
+							x, y := core.PhiOnPath(pair[0], path), pair[1]
+							if core.IsNilConst(y) || globalNamed(y, "EOF") {
+								if eq {
+									eqNilOrEOF = append(eqNilOrEOF, x)
+								} else if core.IsNilConst(y) && drainErr != nil && x == drainErr {
+									failed = true
+								}
+							}
+						}
+					}
+					ret := core.LastInstr(path[len(path)-1]).(*ssa.Return)
+					if len(ret.Results) == 0 {
+						bare++
+						continue
+					}
+					v := core.PhiOnPath(core.ReturnOperand(ret, len(ret.Results)-1), path)
+					if ver == nil {
+						if !failed {
+							bare++
+						}
+						continue
+					}
+					ok := v == ssa.Value(ver)
+					if fc, isCall := v.(*ssa.Call); isCall && !ok {
+						for _, a := range fc.Call.Args {
+							for _, o := range core.Origins(a, core.SliceOpts{}) {
+								if o.Kind == core.OCall && o.Call == ver {
+									ok = true
+								}
+							}
+						}
+					}
+					for _, x := range eqNilOrEOF {
+						if x == ssa.Value(ver) {
+							ok = true
+						}
+					}
+					if !ok {
+						replaced++
+						sample = v.String()
+					}
+				}
+				r.Check(bare == 0, rule, fname, label+": EOF comparisons follow", p.Pos(c.Pos()),
+					fmt.Sprintf("%d of %d paths from this read of the verifying chain reach a return without the read having failed and without the EOF comparisons of BReader.Read (content of the wrong size or digest would be accepted)", bare, len(paths)))
+				r.Check(replaced == 0, rule, fname, label+": verification result returned", p.Pos(c.Pos()),
+					fmt.Sprintf("%d of %d paths run the EOF comparisons and then return %s instead of their result, without having established that the result is io.EOF itself or nil (a mismatch error wraps io.EOF)", replaced, len(paths), sample))
+			}
+		}
+	}
 }
